@@ -204,6 +204,11 @@ func checkTagged(c *core.Ctx, key string, all []*tSeries, w *World, q *QueryDef,
 			rng.Shuffle(len(order), func(a, b int) { order[a], order[b] = order[b], order[a] })
 		}
 		got, kinds := runTagged(pl, w, q, order)
+		// the statement protects NON-EMPTY answers: an empty answer of the single shard and an
+		// "every node answers not-found" error of the spread placement are both "nothing matches"
+		if !strings.HasPrefix(ref, "rows |") && !strings.HasPrefix(got, "rows |") {
+			continue
+		}
 		if got != ref {
 			c.Fail(key, fmt.Sprintf("%s: one node with one shard answers %q (node: %s); placement %s answers %q (nodes: %s; delivery order %v)",
 				what, ref, refKinds, pl, got, kinds, order))
